@@ -1,5 +1,6 @@
 import Zog.Props.FactsOK
 import Zog.Context
+import Zog.Props.C07
 
 /-!
 # C05 — Catch replaces any failure of its own node, and only of its own node
@@ -105,5 +106,12 @@ example : (Engine.run env0 Gen.facts .parse
   rfl
 
 example : SpecEquiv env0 .parse (.prim intGT5Catch99) (.prim intGT5Catch99) := ⟨rfl, fun _ _ _ _ _ => rfl⟩
+
+/-- catch state does not travel in recycled contexts: both constructors that take a node context from
+    the pool assign every live field — `CanCatch` and `Exit` among them (regenerated go/ast fact) — so a
+    catch that fired in an earlier node or an earlier call cannot reach a node through the pool -/
+theorem recycled_context_has_no_catch_state :
+    C07.coversAll "NewSchemaCtx" "SchemaCtx" = true ∧ C07.coversAll "NewValidateSchemaCtx" "SchemaCtx" = true := by
+  decide
 
 end Zog.Props.C05
